@@ -33,9 +33,25 @@ const smtHeader = `(define-fun godiv ((a Int) (b Int)) Int (ite (>= a 0) (ite (>
 (define-fun gomod ((a Int) (b Int)) Int (- a (* b (godiv a b))))
 `
 
+const smtIdx = `(declare-fun idx (Int Int) Int)
+(assert (forall ((o Int) (j Int)) (! (= (idx o j) (+ o j)) :pattern ((idx o j)))))
+`
+
 // buildQuery assembles the SMT-LIB script of an obligation.
 func (eng *Engine) buildQuery(o *Obligation) (string, []string) {
-	body := o.Decls + "\n(assert (not " + o.Goal + "))\n"
+	decls := o.Decls
+	if o.Variant == "focused" && o.Clause != "" {
+		// sound weakening of the hypotheses: keep only the loop invariants with the goal's clause name
+		var keep []string
+		for _, ln := range strings.Split(decls, "\n") {
+			if k := strings.Index(ln, ";@inv:"); k >= 0 && strings.TrimSpace(ln[k+6:]) != o.Clause {
+				continue
+			}
+			keep = append(keep, ln)
+		}
+		decls = strings.Join(keep, "\n")
+	}
+	body := decls + "\n(assert (not " + o.Goal + "))\n"
 	syms := symsOfText(body)
 	// global declarations mentioned (and what they mention)
 	var gl strings.Builder
@@ -68,7 +84,7 @@ func (eng *Engine) buildQuery(o *Obligation) (string, []string) {
 	if lit != "" {
 		syms["blen"], syms["clen"], syms["eps"] = true, true, true
 	}
-	pre, axs := eng.prelude.selectPrelude(syms)
+	pre, axs := eng.prelude.selectPrelude(syms, o.Uses)
 	// sorts first, then datatypes, then the rest of the prelude
 	var sortsTxt, rest strings.Builder
 	for _, ln := range strings.Split(pre, "\n") {
@@ -91,6 +107,9 @@ func (eng *Engine) buildQuery(o *Obligation) (string, []string) {
 	}
 	q.WriteString(dts)
 	q.WriteString(smtHeader)
+	if allSyms["idx"] {
+		q.WriteString(smtIdx)
+	}
 	q.WriteString(rest.String())
 	q.WriteString(gl.String())
 	q.WriteString(lit)
@@ -222,6 +241,33 @@ func (eng *Engine) solveAll(outDir string, timeoutS int, workers int) {
 			o.Result, o.Solver, o.Time, o.Raw = r.res, r.solver, r.secs, r.out
 			if r.res == "sat" {
 				o.Model = parseModel(r.out, o.Inputs)
+			}
+		}(o)
+	}
+	wg.Wait()
+	// second round: obligations that did not discharge are retried with fewer hypotheses
+	// (only the loop invariants that carry the goal's own clause name) - sound, often much faster
+	for _, o := range eng.obligs {
+		if o.Canary || o.Clause == "" || o.Result == "unsat" || o.Result == "sat" || o.File == "" || !strings.Contains(o.Decls, ";@inv:") {
+			continue
+		}
+		if o.Result != "unknown" {
+			continue
+		}
+		wg.Add(1)
+		sem <- struct{}{}
+		go func(o *Obligation) {
+			defer wg.Done()
+			defer func() { <-sem }()
+			o.Variant = "focused"
+			q, _ := eng.buildQuery(o)
+			f2 := strings.TrimSuffix(o.File, ".smt2") + ".focused.smt2"
+			os.WriteFile(f2, []byte(q), 0o644)
+			r := raceSolvers(f2, timeoutS, nil)
+			if r.res == "unsat" {
+				o.Result, o.Solver, o.Time, o.Raw, o.File = r.res, r.solver+" (focused)", o.Time+r.secs, r.out, f2
+			} else {
+				o.Variant = ""
 			}
 		}(o)
 	}
